@@ -267,15 +267,14 @@ Definition wf_op (S : list (string * (nat * nat))) (QL CL : list (string * (nat 
 Definition wf_listed (base : list (string * (nat * nat))) (p : prog) : bool :=
   wf_gates base (p_gates p)
   && forallb (wf_op (sigs_of base (p_gates p)) (layout 0 (p_qregs p)) (layout 0 (p_cregs p))) (p_ops p).
-(* names are declared once; formal parameters / qubits of a gate are distinct and not "pi"; every gate body
-   applies at least one gate; registers are non-empty *)
+(* names are declared once; formal parameters / qubits of a gate are distinct and not "pi"; registers are non-empty *)
 Definition gitem_name (i : gitem) : string := match i with GDef n _ => n | GOpaque n _ _ => n end.
 Definition wf_names (base : list (string * (nat * nat))) (p : prog) : bool :=
   snodup (map fst base ++ map gitem_name (p_gates p))
   && snodup (map fst (p_qregs p)) && snodup (map fst (p_cregs p))
   && forallb (fun r => 0 <? snd r) (p_qregs p) && forallb (fun r => 0 <? snd r) (p_cregs p)
   && forallb (fun i => match i with
-                       | GDef _ d => snodup (gd_params d) && snodup (gd_qubits d) && negb (smem "pi" (gd_params d)) && has_call (gd_body d)
+                       | GDef _ d => snodup (gd_params d) && snodup (gd_qubits d) && negb (smem "pi" (gd_params d))
                        | GOpaque _ _ _ => true end) (p_gates p).
 Definition wf (base : list (string * (nat * nat))) (p : prog) : bool := wf_listed base p && wf_names base p.
 
